@@ -135,6 +135,8 @@ impl Expr {
     ) -> Result<i64, ExprRunError> {
         #[cfg(feature = "verif")]
         let _verif_depth = crate::verif::depth_guard();
+        #[cfg(feature = "verif")]
+        crate::verif::step();
         // symbols keep their defining expression, so `.equ b = a + a`, `.equ c = b + b`, ... doubles
         // the work with every line: bound the work of one evaluation
         steps.set(steps.get() + 1);
